@@ -14,10 +14,10 @@ import gen
 import vlib
 from vlib import Report, ToolError, cached, cargo_build_or_die, log, mkscratch, rmtree
 
-DEPS = ["spec/Grammar.tla", "spec/CanonLR.tla", "spec/Sem.tla", "spec/MCEval.cfg", "tools/core.py", "tools/eng_core.py",
+DEPS = ["spec/Grammar.tla", "spec/CanonLR.tla", "spec/Sem.tla", "spec/SemVal.tla", "spec/MCEval.cfg", "spec/LRMachine.tla", "spec/MCRun.cfg", "tools/core.py", "tools/eng_core.py",
         "tools/c_core.py", "tools/gen.py", "tools/lp.py", "tools/vlib.py", "harness/crates/runner", "harness/crates/lpdrv",
         "harness/Cargo.toml", "harness/.cargo"]
-PROPS = ["C01", "C02", "C04", "C05", "C06", "C07", "C08", "C17", "C19"]
+PROPS = ["C01", "C02", "C04", "C05", "C06", "C07", "C08", "C16", "C17", "C19"]
 
 
 def population(tier, seed):
@@ -35,6 +35,8 @@ def population(tier, seed):
         else:
             g = gen.random_grammar(rng, i, max_nt=2, max_t=2, max_prods=5, max_rhs=3, p_empty=0.3)
         g["id"] = "c%04d" % i
+        if rng.random() < 0.25:
+            g = core.add_recovery(g, rng)
         pop.append(core.annotate(g, rng))
     return pop
 
@@ -69,15 +71,22 @@ def run_batch(cgs, tier, seed, keep_dir=None):
     reduced = eng_core.run_eval.reduced
     usable = [cg for cg in cgs if all(lr1.get("%s@%s" % (cg["id"], s)) for s in cg["starts"])]
     idx_of = {cg["id"]: i for i, cg in enumerate(usable)}
+
+    def variants(cg):
+        if cg.get("recovery"):
+            i = idx_of[cg["id"]]
+            return [("lane", "table")] + ([("lr1", "table")] if i % 3 == 0 else [("lalr", "table")] if i % 3 == 1 else [])
+        return variants_for(idx_of[cg["id"]], tier)
+
     wd = keep_dir or mkscratch("core")
     try:
-        res = eng_core.generate(usable, lambda cg: variants_for(idx_of[cg["id"]], tier), wd)
+        res = eng_core.generate(usable, variants, wd)
         dis = []
         stats = {p: 0 for p in PROPS}
         modules = []
         rejected = []
         for cg in usable:
-            for algo, backend in variants_for(idx_of[cg["id"]], tier):
+            for algo, backend in variants(cg):
                 m = eng_core.modname(cg["id"], algo, backend)
                 r = res[m]
                 if r["status"] == "ok":
@@ -88,72 +97,120 @@ def run_batch(cgs, tier, seed, keep_dir=None):
                     # LALRPOP rejects a grammar the spec finds LR(1): C03's business for lane/lr1;
                     # expected for LALR. Not judged here.
                     rejected.append((m, r["message"][:100]))
+        byid = {cg["id"]: cg for cg in usable}
+        # the runtime model over the exported tables of every accepted module
+        run_cases = []
+        for m, _, starts in modules:
+            gid, algo, backend = m.split("_")
+            cg = byid[gid]
+            ex = res[m]["export"]
+            for a in ex["automata"]:
+                rc = core.run_case(cg, a["user"], bound_for(cg, tier), True, ex, a, backend, "%s@%s" % (m, a["user"]))
+                if rc is None:
+                    dis.append({"prop": "C01", "kind": "export_does_not_match_core_grammar", "backend": backend, "algo": algo,
+                                "gid": gid, "start": a["user"], "cg": cg, "input": [], "detail": ""})
+                else:
+                    run_cases.append(rc)
+        rrecs, rstates, rgenerated, rviol = eng_core.run_machine(run_cases)
+        for v in rviol:
+            m, start = v["id"].split("@")
+            gid, algo, backend = m.split("_")
+            prop = "C08" if v["inv"] in ("StepBound", "AcceptsTerminates") else "C16" if byid[gid].get("recovery") else "C01"
+            dis.append({"prop": prop, "kind": "model_invariant_" + v["inv"], "backend": backend, "algo": algo, "gid": gid,
+                        "start": start, "input": [], "detail": "input %s result %s" % (v["inp"], v["res"]), "cg": byid[gid]})
         binp, bad = eng_core.build_runner_isolating(modules, os.path.join(wd, "gen"), "runner-core")
         badset = {m for m, _ in bad}
-        byid = {cg["id"]: cg for cg in usable}
         stats["C19"] = len(modules)
         for m, err in bad:
             gid, algo, backend = m.split("_")
             dis.append({"prop": "C19", "kind": "does_not_compile", "backend": backend, "algo": algo, "gid": gid,
                         "detail": err[-1200:], "cg": byid[gid]})
-        # requests: every record x every variant (+ suffixed variants of error records)
+        # requests: per module and start symbol, every input of the canonical evaluation and of the
+        # runtime model (+ suffixed variants of canonical error records)
         reqs = []
         meta = {}
         rid = 0
-        for cg in usable:
-            for s in cg["starts"]:
-                cid = "%s@%s" % (cg["id"], s)
+        for m, _, starts in modules:
+            if m in badset:
+                continue
+            gid, algo, backend = m.split("_")
+            cg = byid[gid]
+            recovery = bool(cg.get("recovery"))
+            for s in starts:
+                cid = "%s@%s" % (gid, s)
+                plan = {}   # (tuple(raw input), err_at) -> [sem rec | None, run rec | None, suffixed]
                 for rec in recs.get(cid, []):
+                    kind = rec["res"]["kind"]
+                    if recovery and kind in ("tok", "eof"):
+                        continue   # with `!` the runtime recovers instead; LRMachine says how
+                    base = [cg["ts"].index(t) for t in rec["input"]]
+                    err_at = rec["res"]["at"] if kind == "inj" else None
+                    if kind == "inj":
+                        base = base + [0]
+                    plan.setdefault((tuple(base), err_at), [None, None, False])[0] = rec
+                    # extra tokens may follow only where the parser has not seen the end of input
+                    can_suffix = (not recovery) and (kind in ("tok", "inj") or (kind == "user" and rec["la"] != "$"))
+                    if can_suffix and rng.random() < 0.4:
+                        suf = [rng.randrange(len(cg["ts"])) for _ in range(rng.randint(1, 2))]
+                        plan.setdefault((tuple(base + suf), err_at), [None, None, True])[0] = rec
+                for rec in rrecs.get("%s@%s" % (m, s), []):
                     kind = rec["res"]["kind"]
                     base = [cg["ts"].index(t) for t in rec["input"]]
                     err_at = rec["res"]["at"] if kind == "inj" else None
-                    inputs = [(base, False)]
-                    # extra tokens may follow only where the parser has not seen the end of input
-                    can_suffix = kind in ("tok", "inj") or (kind == "user" and rec["la"] != "$")
-                    if can_suffix and rng.random() < 0.5:
-                        suf = [rng.randrange(len(cg["ts"])) for _ in range(rng.randint(1, 2))]
-                        if kind == "inj":
-                            # the stream item at position `at` is the error; tokens after it must not be read
-                            inputs.append((base + [0] + suf, True))
-                        else:
-                            inputs.append((base + suf, True))
-                    elif kind == "inj":
-                        inputs = [(base + [0], False)]
-                    for algo, backend in variants_for(idx_of[cg["id"]], tier):
-                        m = eng_core.modname(cg["id"], algo, backend)
-                        if res[m]["status"] != "ok" or m in badset:
-                            continue
-                        for inp, suffixed in inputs:
-                            rid += 1
-                            reqs.append({"rid": rid, "m": m, "start": s, "input": inp, "err_at": err_at})
-                            meta[rid] = (cid, rec, algo, backend, suffixed, inp)
+                    if kind == "inj":
+                        base = base + [0]
+                    e = plan.setdefault((tuple(base), err_at), [None, None, False])
+                    e[1] = rec
+                for (inp, err_at), (srec, rrec, suffixed) in plan.items():
+                    rid += 1
+                    reqs.append({"rid": rid, "m": m, "start": s, "input": list(inp), "err_at": err_at})
+                    meta[rid] = (cid, m, srec, rrec, suffixed, list(inp))
         ocs = eng_core.run_requests(binp, reqs, wd)
         if len(ocs) != len(reqs):
             raise ToolError("runner answered %d of %d requests" % (len(ocs), len(reqs)))
         pair = {}
-        for rid, (cid, rec, algo, backend, suffixed, inp) in meta.items():
+        seen = set()
+        for rid, (cid, m, srec, rrec, suffixed, inp) in meta.items():
             oc = ocs[rid]
             gid, start = cid.split("@")
-            kind = rec["res"]["kind"]
+            _, algo, backend = m.split("_")
+            cg = byid[gid]
+            recovery = bool(cg.get("recovery"))
             is_reduced = reduced.get(cid, False)
+            rec0 = srec or rrec
+            kind = rec0["res"]["kind"]
             stats["C01"] += 1
             stats["C08"] += 1
-            if kind == "ok":
+            if recovery:
+                stats["C16"] += 1
+            elif kind == "ok":
                 stats["C02"] += 1
-                stats["C06"] += 1 if _has_loc(byid[gid]) else 0
-            elif kind in ("tok", "eof") and is_reduced:
+                stats["C06"] += 1 if _has_loc(cg) else 0
+            elif kind in ("tok", "eof", "extra") and is_reduced:
                 stats["C04"] += 1
                 stats["C05"] += 1
-            elif kind in ("user", "inj"):
+            if kind in ("user", "inj"):
                 stats["C17"] += 1
-            for prop, k, detail in eng_core.compare(rec, oc, algo, backend, suffixed):
+            found = []
+            if srec is not None:
+                found += [(p, k, d, srec) for p, k, d in eng_core.compare(srec, oc, algo, backend, suffixed)]
+            if rrec is not None:
+                found += [(p, k, d, rrec) for p, k, d in eng_core.compare_exact(rrec, oc, recovery)]
+            if srec is not None and rrec is not None and recovery and srec["res"]["kind"] == "ok" and \
+                    (rrec["res"]["kind"] != "ok" or _has_err(rrec["res"].get("value"))):
+                found.append(("C16", "recovery_used_on_derivable_input", json.dumps(rrec["res"])[:300], rrec))
+            for prop, k, detail, rec in found:
                 if prop in ("C04", "C05") and not is_reduced:
                     continue
+                key = (prop, k, m, start, tuple(inp))
+                if key in seen:
+                    continue
+                seen.add(key)
                 dis.append({"prop": prop, "kind": k, "backend": backend, "algo": algo, "gid": gid, "start": start,
                             "input": rec["input"], "err_at": rec["res"].get("at"), "detail": detail[:600],
-                            "facts": _facts(prop, k, rec, oc), "cg": byid[gid], "suffixed": suffixed,
-                            "raw_input": inp})
-            pair.setdefault((cid, algo, tuple(inp), rec["res"].get("at")), {})[backend] = (oc, rec)
+                            "facts": _facts(prop, k, rec, oc), "cg": cg, "suffixed": suffixed, "raw_input": inp})
+            if not recovery:
+                pair.setdefault((cid, algo, tuple(inp), rec0["res"].get("at")), {})[backend] = (oc, rec0)
         for (cid, algo, inp, at), d in pair.items():
             if "table" in d and "ascent" in d:
                 stats["C07"] += 1
@@ -167,20 +224,41 @@ def run_batch(cgs, tier, seed, keep_dir=None):
                                 "cg": byid[gid], "suffixed": False, "raw_input": list(inp)})
         samples = []
         for rid in list(meta)[:: max(1, len(meta) // 5)][:5]:
-            cid, rec, algo, backend, suffixed, inp = meta[rid]
-            samples.append({"grammar": cid, "algo": algo, "backend": backend, "input": rec["input"],
-                            "spec_result": rec["res"], "real_outcome": {k: v for k, v in ocs[rid].items() if k != "rid"}})
+            cid, m, srec, rrec, suffixed, inp = meta[rid]
+            rec = srec or rrec
+            samples.append({"module": m, "start": cid.split("@")[1], "input": rec["input"],
+                            "canonical_spec_result": srec["res"] if srec else None,
+                            "runtime_model_result": rrec["res"] if rrec else None,
+                            "real_outcome": {k: v for k, v in ocs[rid].items() if k != "rid"}})
         kinds = {}
         for v in recs.values():
             for r in v:
                 kinds[r["res"]["kind"]] = kinds.get(r["res"]["kind"], 0) + 1
+        rkinds = {}
+        nrec = 0
+        for v in rrecs.values():
+            for r in v:
+                rkinds[r["res"]["kind"]] = rkinds.get(r["res"]["kind"], 0) + 1
+                if _has_err(r["res"].get("value")):
+                    nrec += 1
         return {"grammars_generated": len(cgs), "grammars_lr1": len(usable), "modules": len(modules),
+                "recovery_grammars": sum(1 for cg in usable if cg.get("recovery")),
                 "rejected_by_lalrpop": len(rejected), "records": sum(len(v) for v in recs.values()),
-                "record_kinds": kinds, "requests": len(reqs), "states": states, "generated": generated,
+                "record_kinds": kinds, "machine_records": sum(len(v) for v in rrecs.values()), "machine_record_kinds": rkinds,
+                "machine_recovered_parses": nrec,
+                "requests": len(reqs), "states": states + rstates, "generated": generated + rgenerated,
                 "stats": stats, "disagreements": dis, "samples": samples}
     finally:
         if not keep_dir:
             rmtree(wd)
+
+
+def _has_err(v):
+    if isinstance(v, list):
+        if v and v[0] == "e":
+            return True
+        return any(_has_err(x) for x in v)
+    return False
 
 
 def _has_loc(cg):
@@ -252,7 +330,8 @@ def replay_obj(d):
 
 
 LEVEL = {"C01": "model_checking", "C02": "model_checking", "C04": "model_checking", "C05": "model_checking",
-         "C06": "model_checking", "C07": "translation_validation", "C08": "model_checking", "C17": "model_checking",
+         "C06": "model_checking", "C07": "translation_validation", "C08": "model_checking", "C16": "model_checking",
+         "C17": "model_checking",
          "C19": "exploration"}
 
 RULES = {
@@ -271,6 +350,12 @@ RULES = {
            "and algorithm; results compared (expected lists excluded)",
     "C08": "every parse of the enumeration runs under catch_unwind, a pull budget on the token stream and a watchdog; "
            "panics, time-outs and crashes are violations",
+    "C16": "grammars with `!` alternatives at various places; LRMachine.tla (the runtime driver with error recovery over the "
+           "exported tables) is explored by TLC for every input up to the bound with the C16 statements as invariants "
+           "(tree is a derivation, tokens a subsequence, every other token in exactly one error span, spans ordered, dropped "
+           "tokens in order) and every behaviour is replayed through the compiled table-driven parser and compared exactly "
+           "(tree, ErrorRecovery values incl. expected lists, spans, action log); inputs the canonical parser accepts must "
+           "be parsed without recovery",
     "C17": "fallible actions with generator-chosen failure conditions and one injected stream error at every position; "
            "expected error, action log and pull count from Sem.tla",
     "C19": "every module LALRPOP generated for the batch is compiled by rustc; a module that fails to compile is attributed "
@@ -376,6 +461,9 @@ _TEXT = {
     "C07": "Two translations of one automaton: every enumerated input is run through both generated parsers and results compared; "
            "since both are also compared with the specification a disagreement is attributed.",
     "C08": "Every enumerated parse runs under catch_unwind with a pull budget and a watchdog.",
+    "C16": "The C16 statements are TLC invariants of LRMachine.tla (one action per arm of the real driver, incl. recovery) over "
+           "the exported tables; all inputs up to the bound; each behaviour replayed into the real compiled parser and compared "
+           "exactly, so the model is bound to the code.",
     "C17": "TLC enumerates an injected stream error at every position and failing fallible actions; result, action log and pull "
            "count must match exactly.",
     "C19": "Oracle is rustc: every generated module of the batch must compile against lalrpop-util; the specification supplies the "
